@@ -265,9 +265,6 @@ func (vc *VC) preamble() string {
 		folds = append(folds, vc.folds[n].axiomText)
 	}
 	b.WriteString(vc.sorts.Preamble(nil))
-	for _, f := range folds {
-		b.WriteString(f)
-	}
 	// string literals are pairwise distinct
 	if len(vc.strOrder) > 0 {
 		names := []string{"str_empty"}
@@ -278,6 +275,9 @@ func (vc *VC) preamble() string {
 			fmt.Fprintf(&b, "(declare-const str_lit_%d Str) ; %q\n", i+1, s)
 		}
 		fmt.Fprintf(&b, "(assert (distinct %s))\n", strings.Join(names, " "))
+	}
+	for _, f := range folds {
+		b.WriteString(f)
 	}
 	for _, d := range vc.decls {
 		b.WriteString(d)
